@@ -19,10 +19,13 @@ pub struct DupCase {
     pub pool: Vec<ContentSpec>,
     pub internal: u8,
     /// blocks: (first id gap, pattern kind, length, content selectors a/b)
-    pub blocks: Vec<(u32, u8, u16, u16, u16)>,
+    pub blocks: Vec<(u32, u8, u32, u16, u16)>,
     pub first_id: u64,
     pub order_seed: u32,
     pub asyncw: bool,
+    /// write, reopen and write again before checking (all tiles reader-backed in the second write)
+    #[serde(default)]
+    pub reopen: bool,
 }
 
 fn lim() -> Limits {
@@ -126,6 +129,7 @@ fn check_dup(c: &DupCase) -> CaseResult {
         let ca = r.contents[pick(*a, r.contents.len())].clone();
         let cb = r.contents[pick(*b, r.contents.len())].clone();
         for k in 0..u64::from(*len) {
+            let _ = k;
             if id >= end - 1 {
                 break;
             }
@@ -160,9 +164,17 @@ fn check_dup(c: &DupCase) -> CaseResult {
         r.model.insert(id, content);
     }
     let a = std::mem::replace(&mut r.arch, crate::libx::Arch::new_sync());
-    let bytes = guarded("to_writer", || a.write())?.map_err(|e| Fail::new("C10/write-err", format!("{e}")))?;
+    let mut bytes = guarded("to_writer", || a.write())?.map_err(|e| Fail::new("C10/write-err", format!("{e}")))?;
+    if c.reopen {
+        let b2 = bytes.clone();
+        let again = guarded("open", || if c.asyncw { crate::libx::Arch::open_async(b2) } else { crate::libx::Arch::open_sync(b2) })?.map_err(|e| Fail::new("C10/open-err", format!("{e}")))?;
+        bytes = guarded("to_writer", || again.write())?.map_err(|e| Fail::new("C10/write-err", format!("{e}")))?;
+    }
     let (adj, nonadj, leaves) = check_written(&bytes, &r.model, "C10")?;
+    let longest = c.blocks.iter().filter(|b| b.1 % 5 == 0).map(|b| b.2).max().unwrap_or(0);
     Ok(Meta::new(adj && nonadj)
+        .label(longest > 65_535, "run>65535")
+        .label(c.reopen, "rewritten-after-reopen")
         .label(adj, "adjacent-repetition")
         .label(nonadj, "non-adjacent-repetition")
         .label(had_backed, "reader-backed-source")
@@ -212,9 +224,9 @@ fn dup_strategy(max_block: u16, foreign_entries: usize) -> impl Strategy<Value =
             Init::Foreign(l, a)
         }),
     ];
-    let block = (prop_oneof![3 => Just(0u32), 2 => 1u32..3, 1 => 3u32..50_000], 0u8..5, 1u16..=max_block, any::<u16>(), any::<u16>());
+    let block = (prop_oneof![3 => Just(0u32), 2 => 1u32..3, 1 => 3u32..50_000], 0u8..5, 1u32..=u32::from(max_block), any::<u16>(), any::<u16>());
     (init, crate::model::content::pool(6, false, false), 1u8..=4, proptest::collection::vec(block, 1..6), prop_oneof![2 => 0u64..50, 1 => 0u64..(1 << 40)], any::<u32>(), any::<bool>())
-        .prop_map(|(init, pool, internal, blocks, first_id, order_seed, asyncw)| DupCase { init, pool, internal, blocks, first_id, order_seed, asyncw })
+        .prop_map(|(init, pool, internal, blocks, first_id, order_seed, asyncw)| DupCase { init, pool, internal, blocks, first_id, order_seed, asyncw, reopen: order_seed % 3 == 0 })
 }
 
 pub fn run(ctx: &Ctx) {
@@ -227,6 +239,24 @@ pub fn run(ctx: &Ctx) {
     );
     ctx.rec.assume("retention clause observed through PMTiles::verif_store_counts (cargo feature verif, read-only)");
     run_proptest(ctx, "duplication-patterns", PtCfg::new(ctx.lanes, ctx.tier.pick(1000, 8000)), || dup_strategy(ctx.tier.pick(60, 400), 80), check_dup);
+    // very long runs (run lengths are 32-bit): around 2^16 and beyond, in memory and reader-backed
+    let longs: Vec<DupCase> = [65_535u32, 65_536, 70_000, 200_000]
+        .iter()
+        .enumerate()
+        .flat_map(|(k, n)| {
+            [false, true].into_iter().map(move |reopen| DupCase {
+                init: Init::Empty(k % 2 == 1),
+                pool: vec![ContentSpec { kind: 2, len: 20, seed: 5 }, ContentSpec { kind: 0, len: 7, seed: 9 }],
+                internal: 1 + (k % 4) as u8,
+                blocks: vec![(0, 0, *n, 0, 0), (3, 1, 5, 0, 40_000)],
+                first_id: 1000,
+                order_seed: 0,
+                asyncw: k % 2 == 1,
+                reopen,
+            })
+        })
+        .collect();
+    crate::engine::run_list(ctx, "runs-beyond-65535", &longs, check_dup);
     let (mo, mi) = ctx.tier.pick((50, 40), (200, 300));
     run_proptest(ctx, "retention-histories", PtCfg::new(ctx.lanes, ctx.tier.pick(1000, 8000)), || history::history(mo, mi, 60), check_retention);
     for c in ["adjacent-repetition", "non-adjacent-repetition", "reader-backed-source", "foreign-undeduplicated-source", "mixture-memory-equals-backed", "retention-shared-content", "retention-remove", "retention-replace", "retention-reopen"] {
@@ -236,7 +266,7 @@ pub fn run(ctx: &Ctx) {
 
 pub fn replay(sub: &str, case: &Value) -> Option<CaseResult> {
     match sub {
-        "duplication-patterns" => Some(check_dup(&super::de(case)?)),
+        "duplication-patterns" | "runs-beyond-65535" => Some(check_dup(&super::de(case)?)),
         "retention-histories" => Some(check_retention(&super::de(case)?)),
         _ => None,
     }
